@@ -1524,3 +1524,33 @@ def m_res_map_or(ctx, cty, a):
     if r.variant == 0:
         return ctx.call_closure(a[2], [r.fields[0]])
     return a[1]
+
+
+def default_for(ctx, t):
+    h = t.head() if t is not None else "?"
+    if h == "std::vec::Vec":
+        g = t.generics()
+        if g and g[0].kind == "path" and g[0].head() == "u8":
+            return StringObj(SStr())
+        return VecObj()
+    if h == "std::string::String":
+        return StringObj(SStr())
+    if h in ("std::collections::HashMap", "std::collections::BTreeMap", "std::collections::HashSet", "std::collections::BTreeSet", "serde_json::Map"):
+        from .models_coll import new_map_for
+        return new_map_for(t)
+    if h in INT_BITS:
+        return 0
+    if h == "bool":
+        return False
+    if h == "std::option::Option":
+        return opt_none()
+    raise Inconclusive("Default for %s" % h)
+
+
+@model(RES + "unwrap_or_default")
+def m_res_unwrap_or_default(ctx, cty, a):
+    r = a[0]
+    if r.variant == 0:
+        return r.fields[0]
+    ctx.drop_value(r.fields[0])
+    return default_for(ctx, generic_arg(cty, 0, -2))
